@@ -62,9 +62,11 @@ def run_case(rec, seed, k, i):
         g = np.array(sim.gradient) if want_grad else None
         state['ok'] &= simgen.all_converged(sim)
         state['n'] += 1
+        state['sim'] = sim
         return m, g
 
     phi0, g = phi(want_grad=True)
+    sim0 = state['sim']
     rec.case()
     rec.event('gradient_calls')
     keys = [kk for kk in ('sigx', 'sigy', 'sigz') if ms[kk] is not None]
@@ -81,6 +83,19 @@ def run_case(rec, seed, k, i):
                       'entries', case)
         return
     if not state['ok']:
+        # A failed back-propagation is only a legitimate solver outcome if
+        # the residual source handed to the solver was a proper field.
+        try:
+            bad = [sf for sf in sim0._srcfreq
+                   if not np.all(np.isfinite(sim0._get_rfield(*sf).field))]
+        except Exception:  # noqa
+            bad = []
+        if bad:
+            rec.violation('C07:nonfinite-backpropagation-source',
+                          f'the residual source field of {bad[:2]} is not '
+                          f'finite (missing observations not skipped?); the '
+                          f'solver then returns nothing useful', case)
+            return
         rec.event('skipped_solver_not_converged')
         return
     g = g.reshape((len(keys),) + shape)
